@@ -510,6 +510,101 @@ def c18_streams(seed, tier):
     return scs + gen.app_batch(seed, 200 if tier == "quick" else 8000, prof, "c18r")
 
 
+def c19_compass(prefix):
+    """all four Cardinal fields, both Bidirectional fields and both sticks bound to arbitrary distinct inputs, through every
+    construction route; each input pressed alone and in pairs"""
+    out = []
+    i = 0
+    for route in (0, 1, 2, 3):
+        for keys in ((0, 1, 2, 3), (3, 2, 1, 0), (16, 3, 17, 0), (5, 4, 1, 2)):
+            for a in (2, 3, 10, 1):
+                lines = [f"scenario {prefix}{i}", "ctx 0 0 any", f"act {a}"]
+                i += 1
+                if route:
+                    lines.append(f"route {route}")
+                lines.append("preset cardinal " + " ".join(f"{k}:0" for k in keys))
+                lines += ["act 6", "preset bidir 6:0 7:0", "act 14", "preset stick 0", "preset stick 1",
+                          "pad+ 0", "spawn 0", "insert 0 0 0", "frame"]
+                for k in keys:
+                    lines += [f"key {k} 1", "frame", f"key {k} 0", "frame"]
+                lines += [f"key {keys[0]} 1", f"key {keys[1]} 1", "frame", f"key {keys[2]} 1", "frame", f"key {keys[3]} 1", "frame"]
+                for k in keys:
+                    lines.append(f"key {k} 0")
+                lines += ["key 6 1", "frame", "key 7 1", "frame", "key 6 0", "frame", "key 7 0", "frame",
+                          "padaxis 0 0 1/2", "frame", "padaxis 0 1 -1/4", "frame", "padaxis 0 2 1", "padaxis 0 3 3/4", "frame",
+                          "padaxis 0 0 0", "padaxis 0 1 0", "frame", "endscenario"]
+                out.append(lines)
+    return out
+
+
+def c19_route_pairs(seed, n):
+    """the same binding sequence through every applicable route: all variants must behave identically (and like the model,
+    which ignores the route)"""
+    r = random.Random(seed)
+    out = []
+    for i in range(n):
+        prof = Profile(n_ctx=(1, 1), n_actions=(1, 2), n_inputs=(2, 5), n_imods=(0, 1), n_iconds=(0, 1), each_p=0.6,
+                       preset_p=0.25, lifecycle_p=0.03, rebind_p=0.3, keys=[0, 1, 2, 3, 16, 17], pads=(0, 1))
+        base = gen.app_batch(r.randint(0, 10 ** 9), 1, prof, "x")[0]
+        for route in (0, 1, 2, 3):
+            sc = []
+            for l in base:
+                if l.startswith("scenario "):
+                    sc.append(f"scenario c19p{i}r{route}")
+                else:
+                    sc.append(l)
+                    if l.startswith("act ") and route:
+                        sc.append(f"route {route}")
+            out.append(sc)
+        # plain-input blocks: routes 4 / 5 as well
+        prof2 = Profile(n_ctx=(1, 1), n_actions=(1, 2), n_inputs=(2, 5), n_imods=(0, 0), n_iconds=(0, 0), each_p=0.7,
+                        preset_p=0.0, lifecycle_p=0.02, keys=[0, 1, 2, 3], pads=(0, 1))
+        base = gen.app_batch(r.randint(0, 10 ** 9), 1, prof2, "x")[0]
+        for route in (0, 1, 4, 5):
+            sc = []
+            for l in base:
+                if l.startswith("scenario "):
+                    sc.append(f"scenario c19q{i}r{route}")
+                else:
+                    sc.append(l)
+                    if l.startswith("act ") and route:
+                        sc.append(f"route {route}")
+            out.append(sc)
+    return out
+
+
+def c19_streams(seed, tier):
+    prof = Profile(route_p=0.6, each_p=0.4, preset_p=0.3, n_inputs=(1, 5), rebind_p=0.4, n_ctx=(1, 2), lifecycle_p=0.03,
+                   keys=[0, 1, 2, 3, 16, 17])
+    n = 150 if tier == "quick" else 6000
+    return c19_compass("c19c") + c19_route_pairs(seed, 40 if tier == "quick" else 1500) + gen.app_batch(seed, n, prof, "c19r")
+
+
+def c09_directed(prefix):
+    """the same press reaches the action in the same frame whether it is injected as a window event before the frame, by direct
+    resource mutation between frames, or from a system in First; a steady frame delivers no Started / Canceled / Completed"""
+    out = []
+    i = 0
+    for mode in ("direct", "events", "first"):
+        for cond in ("", "icond 1 hold 1/32 0 1/2 0", "icond 1 pulse 1/32 0 1 1/2 0", "icond 1 tap 1/16 1/2 0"):
+            lines = [f"scenario {prefix}{i}", "ctx 0 0 any", "act 0", "in key 0 0"]
+            i += 1
+            if cond:
+                lines.append(cond)
+            lines += ["act 21", "in mbtn 0 0", "act 6", "in motion 0", f"inject {mode}", "spawn 0", "insert 0 0 0", "frame",
+                      "key 0 1", "frame", "frame", "frame", "mb 0 1", "motion 1 1/2", "frame", "frame", "key 0 0", "frame", "mb 0 0",
+                      "frame", "frame", "post remove 0 0", "key 0 1", "frame", "frame", "endscenario"]
+            out.append(lines)
+    return out
+
+
+def c09_streams(seed, tier):
+    prof = Profile(inject_first_p=0.4, inject_events_p=0.8, post_p=0.1, react_p=0.2, n_ctx=(1, 2),
+                   cond_kinds=["press", "justpress", "release", "hold", "holdrel", "tap", "pulse", "sact"], time_p=0.2,
+                   input_kinds=["key"] * 5 + ["mbtn"] * 2 + ["motion", "wheel"], pads=(0, 0))
+    return c09_directed("c09d") + gen.app_batch(seed, 300 if tier == "quick" else 10000, prof, "c09r")
+
+
 PROPS = {
     "C01": dict(streams=c01_streams, proj=P_EVENTS),
     "C02": dict(streams=c02_streams, proj=P_LIFECYCLE),
@@ -519,6 +614,7 @@ PROPS = {
     "C06": dict(streams=c06_streams, proj=P_REGISTRY),
     "C07": dict(streams=c07_streams, proj=P_REGISTRY),
     "C08": dict(streams=c08_streams, proj=P_ALL),
+    "C09": dict(streams=c09_streams, proj=proj_lines({"sched", "frame", "dlv", "probe", "poll", "endframe", "panic"})),
     "C10": dict(streams=c10_streams, proj=P_DURATIONS),
     "C11": dict(streams=c11_streams, proj=proj_lines({"r", "frame", "poll", "inv", "endframe", "panic"}, poll_fields=[0, 1, 2, 3, 4])),
     "C12": dict(streams=c12_streams, proj=P_INVOC),
@@ -527,5 +623,6 @@ PROPS = {
     "C15": dict(streams=c15_streams, proj=proj_lines({"frame", "poll", "endframe", "panic"}, poll_fields=[0, 1, 2, 3, 4, 6])),
     "C16": dict(streams=c16_streams, proj=proj_lines({"frame", "poll", "endframe", "panic"}, poll_fields=[0, 1, 2, 3, 4, 6])),
     "C18": dict(streams=c18_streams, proj=proj_lines({"r", "frame", "poll", "inv", "endframe", "panic"}, poll_fields=[0, 1, 2, 3, 4, 6])),
+    "C19": dict(streams=c19_streams, proj=P_ALL),
     "C20": dict(streams=c20_streams, proj=P_UNIT),
 }
